@@ -108,6 +108,10 @@ func (s *Slice) At(i int) *Cell {
 	return s.Back.E[s.Lo+i]
 }
 
+// IntBits is the width of int, uint and uintptr (64, or 32 to interpret the code as built for a 32-bit platform).
+// Set it before creating the interpreter and restore it afterwards; interpreters are not run concurrently.
+var IntBits = 64
+
 func widthOf(t types.Type) (int, bool, bool) {
 	b, ok := t.Underlying().(*types.Basic)
 	if !ok {
@@ -128,9 +132,13 @@ func widthOf(t types.Type) (int, bool, bool) {
 		return 32, false, true
 	case types.Int32, types.UntypedRune:
 		return 32, true, true
-	case types.Uint64, types.Uint, types.Uintptr:
+	case types.Uint, types.Uintptr:
+		return IntBits, false, true
+	case types.Int:
+		return IntBits, true, true
+	case types.Uint64:
 		return 64, false, true
-	case types.Int64, types.Int, types.UntypedInt:
+	case types.Int64, types.UntypedInt:
 		return 64, true, true
 	}
 	return 0, false, false
